@@ -37,6 +37,9 @@ type pendingOp struct {
 	recv    reflect.Value
 	recvOk  bool
 	hasDflt bool
+	peer    *pendingOp // the operation that completed this one (race edges)
+	stok    byte       // released when a send case is announced
+	rtok    byte       // released when a receive case is announced
 }
 
 type stashEntry struct {
@@ -57,6 +60,26 @@ type ownChan struct {
 }
 
 var ownChans []ownChan
+
+// The happens-before edges of a Go channel, re-created for the race detector.
+//
+// Buffered channels are operated with the real (non-blocking) channel operations outside
+// RaceDisable, so the runtime's own annotations on the buffer slots apply, exactly as in a
+// free-running program (send k before receive k completes; receive k before send k+C
+// completes).
+//
+// An unbuffered channel is a rendezvous the scheduler pairs without touching the real
+// channel, so its two edges are re-created here, per operation and not per channel (a
+// release on a shared address would overwrite the release of another sender that is also
+// waiting): every blocking operation owns two tokens in its pendingOp; a sender releases on
+// its stok, a receiver on its rtok, when the operation is announced (the task does nothing
+// between that and the rendezvous); at the rendezvous the receiver acquires the sender's
+// stok (the send happens before the receive completes) and the sender the receiver's rtok
+// (the receive happens before the send completes).
+//
+// close happens before a receive that observes the channel closed: Close release-merges on
+// the channel's address, a receive that completes without a controlled sender (closed
+// channel, or a value that came from outside the task world) acquires on it.
 
 //go:norace
 func resetChanState() {
@@ -249,9 +272,23 @@ func doChanOp(kind OpKind, hasDefault bool, cases []chanCase) (int, reflect.Valu
 	t := e.running
 	p := &pendingOp{cases: cases, hasDflt: hasDefault}
 	t.pend = p
-	for _, c := range cases {
-		if c.send && c.ch.IsValid() && !c.ch.IsNil() {
-			RaceRelease(c.ch.UnsafePointer())
+	if RaceBuild {
+		var snd, rcv bool
+		for _, c := range cases {
+			if !c.ch.IsValid() || c.ch.IsNil() {
+				continue
+			}
+			if c.send {
+				snd = true
+			} else {
+				rcv = true
+			}
+		}
+		if snd {
+			RaceRelease(unsafe.Pointer(&p.stok))
+		}
+		if rcv {
+			RaceRelease(unsafe.Pointer(&p.rtok))
 		}
 	}
 	var addr unsafe.Pointer
@@ -266,10 +303,14 @@ func doChanOp(kind OpKind, hasDefault bool, cases []chanCase) (int, reflect.Valu
 	if p.done {
 		c := cases[p.idx]
 		if c.send {
-			RaceAcquire(unsafe.Add(c.ch.UnsafePointer(), 1))
+			if p.peer != nil {
+				RaceAcquire(unsafe.Pointer(&p.peer.rtok))
+			}
 			return p.idx, reflect.Value{}, false
 		}
-		RaceAcquire(c.ch.UnsafePointer())
+		if p.peer != nil {
+			RaceAcquire(unsafe.Pointer(&p.peer.stok))
+		}
 		return p.idx, p.recv, p.recvOk
 	}
 	var ready [32]int
@@ -301,19 +342,19 @@ func doChanOp(kind OpKind, hasDefault bool, cases []chanCase) (int, reflect.Valu
 			return i, reflect.Value{}, false
 		}
 		u, uk := e.counterpart(t, c)
-		u.pend.done, u.pend.idx, u.pend.recv, u.pend.recvOk = true, uk, c.val, true
-		RaceAcquire(unsafe.Add(ptr, 1))
+		u.pend.done, u.pend.idx, u.pend.recv, u.pend.recvOk, u.pend.peer = true, uk, c.val, true, p
+		RaceAcquire(unsafe.Pointer(&u.pend.rtok))
 		return i, reflect.Value{}, false
 	}
 	if pollRecv(c.ch) {
 		x, ok := takeRecv(c.ch)
+		RaceAcquire(ptr)
 		return i, x, ok
 	}
 	u, uk := e.counterpart(t, c)
 	x := u.pend.cases[uk].val
-	u.pend.done, u.pend.idx = true, uk
-	RaceAcquire(ptr)
-	RaceRelease(unsafe.Add(ptr, 1))
+	u.pend.done, u.pend.idx, u.pend.peer = true, uk, p
+	RaceAcquire(unsafe.Pointer(&u.pend.stok))
 	return i, x, true
 }
 
@@ -381,6 +422,39 @@ func SelectG(hasDefault bool, cases ...Case) int {
 		freeSelVal, freeSelOk = x, ok
 	}
 	return i
+}
+
+// SelResult is the outcome of SelectR: the case taken (-1 for default) and, for a receive
+// case, the value and ok. It belongs to the caller, so it is right in free-running mode too
+// (SelectG/SelVal keep their result per task, or in one global when running free).
+type SelResult struct {
+	I   int
+	Ok  bool
+	val reflect.Value
+}
+
+// SelectR is the general select vinstr generates code for.
+//
+//go:norace
+func SelectR(hasDefault bool, cases ...Case) *SelResult {
+	cc := make([]chanCase, len(cases))
+	for i, c := range cases {
+		cc[i] = c.c
+	}
+	i, x, ok := doChanOp(OpSelect, hasDefault, cc)
+	return &SelResult{I: i, Ok: ok, val: x}
+}
+
+// ValOf returns the value received by the select, typed by the channel of the case.
+//
+//go:norace
+func ValOf[T any](r *SelResult, ch <-chan T) T {
+	var zero T
+	if r == nil || !r.val.IsValid() {
+		return zero
+	}
+	v, _ := r.val.Interface().(T)
+	return v
 }
 
 var freeSelVal reflect.Value
@@ -496,5 +570,6 @@ func Close(c any) {
 		}
 		closedChans = append(closedChans, v.UnsafePointer())
 	}
+	RaceReleaseMerge(v.UnsafePointer()) // close happens before a receive that observes it
 	v.Close()
 }
